@@ -25,7 +25,7 @@ RULE = ("histories of encrypt-and-generate with ONE key shared by all processes 
 MIN_DISTINCT = {"quick": 20000, "thorough": 200000}
 ASSUMPTIONS = ["pycryptodome AES-GCM decrypts what cryptography encrypted", "a uniformly random IV space of 2^b is "
                "detected only with probability 1-exp(-n^2/2^(b+1)); the claim is 'no reuse in n observed encryptions'"]
-LOOP = {"quick": 70000, "thorough": 1000000}
+LOOP = {"quick": 150000, "thorough": 1000000}
 CLI = {"quick": 112, "thorough": 1500}
 FORKS = {"quick": 280, "thorough": 3000}
 REBUILD = {"quick": 1400, "thorough": 14000}
